@@ -193,7 +193,7 @@ def _describe_same_start(which, dA, dB, rev, acc=None):
 @core.guarded(_describe_same_start)
 def check_same_start(which, dA, dB, rev, acc):
     """two molecules on ONE reference whose join points start at the same reference label and end at different ones"""
-    ref = [1000, 151000, 300000, 460000]
+    ref = [1000, 151000, 300000, 330000]
     specs = ((9, (1, 2, 3), dA), (12, (1, 2, 4), dB))
     adict, qdict, bdict, expected = {4: []}, {}, {}, {}
     for qid, rl, d in specs:
